@@ -88,7 +88,10 @@ def check(case):
         kind = "client" if kind == "hash" else "pooled"      # HashClient offers no item syntax
     env = Env()
     kw = {k: cfg[k] for k in ("key_prefix", "allow_unicode_keys", "encoding", "default_noreply") if k in cfg}
-    if cfg.get("serde"):
+    if cfg.get("serde") and cfg["serde"][0] == "view":
+        kw["serde"] = ViewSerde(cfg["serde"][1])
+        cfg = dict(cfg, serde_obj=ViewSerde(cfg["serde"][1]))
+    elif cfg.get("serde"):
         from props import c04
         kw["serde"] = c04.make_serde(tuple(cfg["serde"]))
         cfg = dict(cfg, serde_obj=c04.make_serde(tuple(cfg["serde"])))      # an independent instance computes the intended payload/flags
@@ -216,6 +219,18 @@ def multikey_cases(tier, seed):
                         else:
                             r = {"op": op, "keys": keys}
                         yield {"kind": kind, "cfg": BASE_CFG, "op": r}
+    # long lists: an illegal key far down the list still means that nothing at all is sent
+    for n in (999, 1000, 1001, 2500):
+        good = [b"key-%d" % j for j in range(n)]
+        for pos in (n - 1, n // 2):
+            keys = good[:pos] + [b"bad key"] + good[pos + 1:]
+            for kind in ("client", "pooled"):
+                yield {"kind": kind, "cfg": BASE_CFG, "op": {"op": "get_many", "keys": keys}}
+                yield {"kind": kind, "cfg": BASE_CFG, "op": {"op": "delete_many", "keys": keys, "noreply": True}}
+                yield {"kind": kind, "cfg": BASE_CFG, "op": {"op": "delete_many", "keys": keys, "noreply": False}}
+                yield {"kind": kind, "cfg": BASE_CFG, "op": {"op": "set_many", "values": {k: b"v" for k in keys}, "noreply": True}}
+        yield {"kind": "client", "cfg": BASE_CFG, "op": {"op": "delete_many", "keys": good, "noreply": False}}
+        yield {"kind": "client", "cfg": BASE_CFG, "op": {"op": "get_many", "keys": good}}
     # legal multi-key calls of several sizes (the "nothing more" direction)
     for n in (0, 1, 2, 5, 30):
         keys = [b"key-%d" % j for j in range(n)]
@@ -282,6 +297,44 @@ def integer_cases(tier, seed):
                     r["noreply"] = bool(i & 1)
                     i += 1
                     yield {"kind": kind, "cfg": cfg, "op": r}
+
+
+class ViewSerde:
+    """a serializer handing back bytes-like objects that are not `bytes` (bytearray, memoryviews of item size 1 and 4).
+    Views are cached per value so that two instances return the very same object."""
+    _cache = {}
+
+    def __init__(self, how):
+        self.how = how
+
+    def serialize(self, key, value):
+        import array
+        k = (self.how, bytes(value))
+        if k not in ViewSerde._cache:
+            raw = bytes(value) + b"\0" * (-len(value) % 4)
+            ViewSerde._cache[k] = {"bytearray": lambda: bytearray(value), "view1": lambda: memoryview(bytes(value)),
+                                   "view4": lambda: memoryview(array.array("I", raw))}[self.how]()
+        return ViewSerde._cache[k], 3
+
+    def deserialize(self, key, value, flags):
+        return value
+
+
+def view_serde_cases(tier, seed):
+    i = 0
+    for how in ("bytearray", "view1", "view4"):
+        for kind in ("client", "pooled", "hash"):
+            for val in (b"abcd", b"12345678abcdefgh", b"", b"x" * 400):
+                for nr in (True, False, None):
+                    for op in ("set", "add", "append", "cas"):
+                        i += 1
+                        r = rec_for(op, "k", i)
+                        r["value"] = val
+                        if nr is None:
+                            r.pop("noreply", None)
+                        else:
+                            r["noreply"] = nr
+                        yield {"kind": kind, "cfg": dict(BASE_CFG, serde=["view", how]), "op": r}
 
 
 def serde_flag_cases(tier, seed):
@@ -368,6 +421,7 @@ PARTS = [
     Part("multi-key", "enum", check, cases=multikey_cases, exhaustive=True),
     Part("integers-and-values", "enum", check, cases=integer_cases, exhaustive=True),
     Part("serde-and-flags", "enum", check, cases=serde_flag_cases, exhaustive=True),
+    Part("bytes-like-payloads", "enum", check, cases=view_serde_cases, exhaustive=True),
     Part("random", "hyp", check, strategy=random_strategy,
          examples={"quick": 600, "thorough": 25000}, shards={"quick": 4, "thorough": 16}),
 ]
